@@ -173,11 +173,17 @@ fn write_generated_file(
         None => PathBuf::from(&generated_file.path),
     };
 
+    // If something that isn't a regular file already exists at that path (a directory, a pipe, a device), we don't
+    // touch it: opening a pipe can block forever, and reading a device may never end.
+    let existing_file = std::fs::metadata(&generated_file_path).ok();
+    if existing_file.as_ref().is_some_and(|metadata| !metadata.is_file()) {
+        return Err(Error::other("a file that is not a regular file already exists at this path"));
+    }
+
     // If the generated file already exists on disk, and is identical to what we want to write,
     // we don't overwrite the file, and instead return immediately.
-    // Only a regular file of the same length can be identical; anything else isn't read (reading a device may never end).
-    let could_be_identical = std::fs::metadata(&generated_file_path)
-        .is_ok_and(|metadata| metadata.is_file() && metadata.len() == generated_file_bytes.len() as u64);
+    // Only a file of the same length can be identical.
+    let could_be_identical = existing_file.is_some_and(|metadata| metadata.len() == generated_file_bytes.len() as u64);
     if could_be_identical {
         if let Ok(current_contents) = std::fs::read(&generated_file_path) {
             if current_contents == generated_file_bytes {
